@@ -1816,7 +1816,7 @@ def _op_histories(ctx, out, rng, scratch):
                     how = rng.choice(COPIES)
                     if how == "json" and dbs[i].source != ":memory:":
                         how = "deepcopy"  # json round trip of a file-backed db re-opens the file: spec_check's job
-                    mops.append(["copy", i])
+                    mops.append(["copy", i, how])
                     log.append(f"copy {how}")
                     dbs.append(copy_db(dbs[i], how, scratch, f"h{h}"))
             except TypeError:
